@@ -33,3 +33,202 @@ package signature
 //@     invariant [dom] forall k K :: {has(out, k)} has(out, k) ==> (exists i int :: {keys[i]} 0 <= i && i < $idx && keys[i] == k)
 //@     invariant [val] forall k K :: {out[k]} has(out, k) ==> out[k] == in[k]
 //@     decreases len(keys) - $idx
+
+//@ func EmptyToNilPtr
+//@   pure
+//@   assigns nothing
+//@   ensures [nilempty] (pipeline.matrixEmpty(p) ==> ret == nil) && (!pipeline.matrixEmpty(p) ==> ret == p)
+
+//@ define inFields(fields, n, f) := exists i int :: {fields[i]} 0 <= i && i < n && fields[i] == f
+//@ define allMandatory(fields, n) := inFields(fields, n, "command") && inFields(fields, n, "env") && inFields(fields, n, "plugins") &&
+//@     inFields(fields, n, "matrix") && inFields(fields, n, "repository_url")
+//@ define nilIfEmptyMap(m) := len(m) == 0 ? nil : m
+//@ define nilIfEmptySlice(s) := len(s) == 0 ? nil : s
+//@ define nilIfEmptyMatrix(m) := pipeline.matrixEmpty(m) ? nil : m
+
+//@ define stepValues(out, c) :=
+//@     (has(out, "command") ==> out["command"] == box(string, c.Command)) &&
+//@     (has(out, "env") ==> out["env"] == box(map[string]string, nilIfEmptyMap(c.Env))) &&
+//@     (has(out, "plugins") ==> out["plugins"] == box(pipeline.Plugins, nilIfEmptySlice(c.Plugins))) &&
+//@     (has(out, "matrix") ==> out["matrix"] == box(*pipeline.Matrix, nilIfEmptyMatrix(c.Matrix))) &&
+//@     (has(out, "repository_url") ==> out["repository_url"] == box(string, c.RepositoryURL))
+
+//@ func (*CommandStepWithInvariants).SignedFields
+//@   requires c != nil
+//@   assigns nothing
+//@   ensures [five] ret1 == nil && ret0 != nil && fresh(ret0) && (forall f string :: {has(ret0, f)} has(ret0, f) <==> mand(f))
+//@   ensures [values] stepValues(ret0, c)
+
+//@ func (*CommandStepWithInvariants).ValuesForFields
+//@   requires c != nil
+//@   assigns nothing
+//@   ensures [mandatory] ret1 == nil ==> allMandatory(fields, len(fields))
+//@   ensures [known]     ret1 == nil ==> (forall i int :: {fields[i]} 0 <= i && i < len(fields) ==> mand(fields[i]) || hasPrefix(fields[i], "env::"))
+//@   ensures [values]    ret1 == nil ==> ret0 != nil && fresh(ret0) && (forall f string :: {has(ret0, f)} has(ret0, f) <==> mand(f)) && stepValues(ret0, c)
+//@   ensures [reject]    (exists f string :: mand(f) && !inFields(fields, len(fields), f)) ==> ret1 != nil
+//@   ensures [unknown]   (exists i int :: {fields[i]} 0 <= i && i < len(fields) && !mand(fields[i]) && !hasPrefix(fields[i], "env::")) ==> ret1 != nil
+//@   ensures [err]       ret1 != nil ==> ret0 == nil
+//@   loop 0
+//@     assigns *required, *out
+//@     invariant [shape] 0 <= $idx && $idx <= len(fields) && required != nil && fresh(required) && out != nil && fresh(out) && required != out
+//@     invariant [req-mand] forall f string :: {has(required, f)} has(required, f) ==> mand(f)
+//@     invariant [req] forall f string :: {has(required, f)} mand(f) ==> (has(required, f) <==> !inFields(fields, $idx, f))
+//@     invariant [out] forall f string :: {has(out, f)} has(out, f) <==> (mand(f) && inFields(fields, $idx, f))
+//@     invariant [values] stepValues(out, c)
+//@     invariant [known] forall i int :: {fields[i]} 0 <= i && i < $idx ==> mand(fields[i]) || hasPrefix(fields[i], "env::")
+//@     decreases len(fields) - $idx
+//@   loop 1
+//@     assigns missing[..]
+//@     invariant [live] len(required) > 0 && (arr(missing) == atloop(arr(missing)) || loopfresh(missing))
+
+// ---- options ----
+
+//@ func (Option).apply
+//@   assigns *arg0
+//@   note an option only sets fields of the options struct it is applied to
+
+//@ func (envOption).apply
+//@   requires opts != nil
+//@   assigns *opts
+//@ func (loggerOption).apply
+//@   requires opts != nil
+//@   assigns *opts
+//@ func (debugSigningOption).apply
+//@   requires opts != nil
+//@   assigns *opts
+
+//@ func configureOptions
+//@   requires forall i int :: {opts[i]} 0 <= i && i < len(opts) ==> opts[i] != nil
+//@   assigns nothing
+//@   loop 0
+//@     assigns options
+//@     invariant [idx] 0 <= $idx && $idx <= len(opts)
+//@     decreases len(opts) - $idx
+
+//@ func (Logger).Debug
+//@   assigns nothing
+//@   note ASSUMPTION: a caller-supplied logger does not write memory of the objects being signed or verified
+
+//@ func debug
+//@   assigns nothing
+
+// ---- canonical payload ----
+
+//@ ghost func cpOf(payload []byte, alg string, values map[string]any) bool
+
+// cpOf(p, alg, values): p is the byte string canonicalPayload produces for
+// (alg, values). The relation is defined by this function; that it is
+// deterministic and injective in the JSON meaning of its operands is the
+// JSON+JCS assumption of C14 (validated by a bounded check, not proved).
+//@ func canonicalPayload
+//@   assigns nothing
+//@   defines [cp] ret1 == nil ==> cpOf(ret0, alg, values)
+//@   ensures [err] ret1 != nil ==> ret0 == nil
+//@   check [jcs] ret1 == nil ==> jcsOf(payload, rawPayload)
+
+// ---- Verify ----
+
+//@ func (SignedFielder).SignedFields
+//@   assigns nothing
+//@   ensures [fresh] ret1 == nil ==> ret0 != nil && fresh(ret0)
+//@   ensures [step] typeis(recv, *CommandStepWithInvariants) && unbox(recv, *CommandStepWithInvariants) != nil ==>
+//@       ret1 == nil && (forall f string :: {has(ret0, f)} has(ret0, f) <==> mand(f)) && stepValues(ret0, unbox(recv, *CommandStepWithInvariants))
+
+//@ func (SignedFielder).ValuesForFields
+//@   assigns nothing
+//@   ensures [fresh] ret1 == nil ==> ret0 != nil && fresh(ret0)
+//@   ensures [step] typeis(recv, *CommandStepWithInvariants) && unbox(recv, *CommandStepWithInvariants) != nil && ret1 == nil ==>
+//@       allMandatory(arg0, len(arg0)) &&
+//@       (forall i int :: {arg0[i]} 0 <= i && i < len(arg0) ==> mand(arg0[i]) || hasPrefix(arg0[i], "env::")) &&
+//@       (forall f string :: {has(ret0, f)} has(ret0, f) <==> mand(f)) && stepValues(ret0, unbox(recv, *CommandStepWithInvariants))
+
+//@ define envEntries(values, env, objEnv, upto) :=
+//@     (forall k string :: {has(env, k)} has(env, k) && upto(k) && !has(objEnv, k) ==> has(values, "env::" ++ k) && values["env::" ++ k] == box(string, env[k]))
+
+//@ func Verify
+//@   requires s != nil && sf != nil && (forall i int :: {opts[i]} 0 <= i && i < len(opts) ==> opts[i] != nil)
+//@   requires implements(keySet, jwk.Set) || implements(keySet, crypto.Signer)
+//@   assigns nothing
+//@   ensures [covers] ret == nil ==> len(s.SignedFields) > 0
+//@   check [required-dom] ret == nil ==> (forall f string :: {has(required, f)} has(required, f) <==> inFields(s.SignedFields, len(s.SignedFields), f))
+//@   check [required-val] ret == nil ==> (forall f string :: {required[f]} has(required, f) ==> has(values, f) && required[f] == values[f])
+//@   check [payload] ret == nil ==> cpOf(payload, s.Algorithm, required)
+//@   check [verified] ret == nil ==> jwsVerifiedWith(bytesOf(s.Value), keyOpt, optDetached(payload))
+//@   check [keyset] ret == nil && implements(keySet, jwk.Set) ==> keyOpt == optKeySet(keySet)
+//@   check [env] ret == nil ==> (forall k string :: {has(options.env, k)} has(options.env, k) && !has(objEnv, k) ==> has(values, "env::" ++ k) && values["env::" ++ k] == box(string, options.env[k]))
+//@   check [step] ret == nil && typeis(sf, *CommandStepWithInvariants) && unbox(sf, *CommandStepWithInvariants) != nil ==>
+//@       allMandatory(s.SignedFields, len(s.SignedFields)) && stepValues(values, unbox(sf, *CommandStepWithInvariants))
+//@   loop 0
+//@     assigns *values
+//@     invariant [env] forall k string :: {visited(k)} visited(k) && !has(objEnv, k) ==> has(values, "env::" ++ k) && values["env::" ++ k] == box(string, options.env[k])
+//@     invariant [vis] forall k string :: {visited(k)} visited(k) ==> has(options.env, k)
+//@     invariant [keep] values != nil && (forall f string :: {has(values, f)} atloop(has(values, f)) ==> has(values, f) && (!hasPrefix(f, "env::") ==> values[f] == atloop(values[f])))
+//@   loop 1
+//@     assigns nothing
+//@     invariant [t] true
+
+// ---- Sign ----
+
+//@ func (Key).Algorithm
+//@   pure
+//@   ensures [fn] ret == kAlg(recv) && ret != nil
+//@   note ASSUMPTION: a key's Algorithm() is a pure observer and never returns a nil interface
+
+//@ define sortedStrings(x) := forall i int, j int :: {x[i], x[j]} 0 <= i && i < j && j < len(x) ==> x[i] <= x[j]
+
+//@ func Sign
+//@   requires key != nil && sf != nil && (forall i int :: {opts[i]} 0 <= i && i < len(opts) ==> opts[i] != nil)
+//@   requires implements(key, jwk.Key) || implements(key, crypto.Signer)
+//@   assigns nothing
+//@   ensures [sig] ret1 == nil ==> ret0 != nil && fresh(ret0) && ret0.Algorithm == algString(kAlg(key)) && sortedStrings(ret0.SignedFields)
+//@   ensures [err] ret1 != nil ==> ret0 == nil
+//@   check [fields] ret1 == nil ==> ret0.SignedFields == fields && (forall f string :: {has(values, f)} has(values, f) ==> inFields(fields, len(fields), f)) &&
+//@       (forall i int :: {fields[i]} 0 <= i && i < len(fields) ==> has(values, fields[i]))
+//@   check [env] ret1 == nil ==> (forall k string :: {has(options.env, k)} has(options.env, k) && !has(objEnv, k) ==> has(values, "env::" ++ k) && values["env::" ++ k] == box(string, options.env[k]))
+//@   check [step] ret1 == nil && typeis(sf, *CommandStepWithInvariants) && unbox(sf, *CommandStepWithInvariants) != nil ==>
+//@       has(values, "command") && has(values, "env") && has(values, "plugins") && has(values, "matrix") && has(values, "repository_url") &&
+//@       stepValues(values, unbox(sf, *CommandStepWithInvariants))
+//@   check [only] ret1 == nil && typeis(sf, *CommandStepWithInvariants) && unbox(sf, *CommandStepWithInvariants) != nil ==>
+//@       (forall f string :: {has(values, f)} has(values, f) ==> mand(f) || (hasPrefix(f, "env::") && has(options.env, trimPrefix(f, "env::")) && !has(objEnv, trimPrefix(f, "env::"))))
+//@   check [payload] ret1 == nil ==> cpOf(payload, algString(kAlg(key)), values)
+//@   check [signed] ret1 == nil ==> jwsSignedWith(sig, optKey(kAlg(key), key), optDetached(payload)) && ret0.Value == stringOf(sig)
+//@   loop 0
+//@     assigns *values
+//@     invariant [env] forall k string :: {visited(k)} visited(k) && !has(objEnv, k) ==> has(values, "env::" ++ k) && values["env::" ++ k] == box(string, options.env[k])
+//@     invariant [vis] forall k string :: {visited(k)} visited(k) ==> has(options.env, k)
+//@     invariant [keep] values != nil && (forall f string :: {has(values, f)} atloop(has(values, f)) ==> has(values, f) && (!hasPrefix(f, "env::") ==> values[f] == atloop(values[f])))
+//@     invariant [only] forall f string :: {has(values, f)} has(values, f) ==> atloop(has(values, f)) || (hasPrefix(f, "env::") && has(options.env, trimPrefix(f, "env::")) && !has(objEnv, trimPrefix(f, "env::")))
+//@   loop 1
+//@     assigns fields[..]
+//@     invariant [arr] arr(fields) == atloop(arr(fields)) || loopfresh(fields)
+//@     invariant [sub] forall i int :: {fields[i]} 0 <= i && i < len(fields) ==> has(values, fields[i])
+//@     invariant [sup] forall f string :: {visited(f)} visited(f) ==> inFields(fields, len(fields), f)
+
+// ---- SignSteps ----
+
+//@ ginv refusal: errSigningRefusedUnknownStepType != nil
+
+// signable(s): no typed-nil step pointer at any depth (parsed pipelines never contain one).
+//@ ghost heap func signable(s pipeline.Steps) bool := forall i int :: {s[i]} 0 <= i && i < len(s) ==>
+//@     (typeis(s[i], *pipeline.CommandStep) ==> unbox(s[i], *pipeline.CommandStep) != nil) &&
+//@     (typeis(s[i], *pipeline.GroupStep) ==> unbox(s[i], *pipeline.GroupStep) != nil && signable(unbox(s[i], *pipeline.GroupStep).Steps))
+
+// hasUnknown(s): a step of unknown kind occurs at some depth.
+//@ ghost heap func hasUnknown(s pipeline.Steps) bool := exists i int :: {s[i]} 0 <= i && i < len(s) &&
+//@     (typeis(s[i], *pipeline.UnknownStep) || (typeis(s[i], *pipeline.GroupStep) && hasUnknown(unbox(s[i], *pipeline.GroupStep).Steps)))
+
+//@ func SignSteps
+//@   requires key != nil && (implements(key, jwk.Key) || implements(key, crypto.Signer)) && (forall i int :: {opts[i]} 0 <= i && i < len(opts) ==> opts[i] != nil)
+//@   requires signable(s)
+//@   assigns any(*pipeline.CommandStep).Signature
+//@   ensures [signed] ret == nil ==> (forall i int :: {s[i]} 0 <= i && i < len(s) && typeis(s[i], *pipeline.CommandStep) ==> unbox(s[i], *pipeline.CommandStep).Signature != nil)
+//@   ensures [refuse] old(hasUnknown(s)) ==> ret != nil
+//@   ensures [mono] forall p *pipeline.CommandStep :: {p.Signature} old(p.Signature) != nil ==> p.Signature != nil
+//@   loop 0
+//@     assigns any(*pipeline.CommandStep).Signature
+//@     invariant [idx] 0 <= $idx && $idx <= len(s)
+//@     invariant [mono] forall p *pipeline.CommandStep :: {p.Signature} old(p.Signature) != nil ==> p.Signature != nil
+//@     invariant [signed] forall i int :: {s[i]} 0 <= i && i < $idx && typeis(s[i], *pipeline.CommandStep) ==> unbox(s[i], *pipeline.CommandStep).Signature != nil
+//@     invariant [known] forall i int :: {s[i]} 0 <= i && i < $idx ==> !typeis(s[i], *pipeline.UnknownStep) &&
+//@         (typeis(s[i], *pipeline.GroupStep) ==> !old(hasUnknown(unbox(s[i], *pipeline.GroupStep).Steps)))
+//@     decreases len(s) - $idx
